@@ -2,8 +2,12 @@
 //! (cfg(trusttunnel_verif) only)
 
 use crate::http_datagram_codec::{DecodeResult, Decoder as _, Encoder as _};
-use crate::{downstream, forwarder, http_icmp_codec, http_udp_codec, log_utils, net_utils};
+use crate::{
+    datagram_pipe, downstream, forwarder, http_downstream, http_icmp_codec, http_udp_codec,
+    log_utils, net_utils,
+};
 use bytes::Bytes;
+use std::io;
 use std::net::{IpAddr, SocketAddr};
 
 /// Plain view of a decoded client->endpoint UDP record
@@ -64,6 +68,37 @@ impl UdpDecoder {
     }
 }
 
+/// The real client -> endpoint reader of a UDP multiplexer (`http_downstream::DatagramDecoder`)
+/// over a byte source of the harness: what `udp_pipe` polls and drops
+pub struct UdpReader(Box<dyn datagram_pipe::Source<Output = downstream::UdpDatagram>>);
+
+impl UdpReader {
+    pub fn new(source: Box<dyn super::pipe::VSource>) -> Self {
+        Self(http_downstream::verif_udp_reader(Box::new(
+            super::pipe::SourceIn(source),
+        )))
+    }
+
+    pub async fn read(&mut self) -> io::Result<UdpIn> {
+        self.0.read().await.map(view_udp)
+    }
+}
+
+/// The same for an ICMP multiplexer
+pub struct IcmpReader(Box<dyn datagram_pipe::Source<Output = downstream::IcmpDatagram>>);
+
+impl IcmpReader {
+    pub fn new(source: Box<dyn super::pipe::VSource>) -> Self {
+        Self(http_downstream::verif_icmp_reader(Box::new(
+            super::pipe::SourceIn(source),
+        )))
+    }
+
+    pub async fn read(&mut self) -> io::Result<IcmpReq> {
+        self.0.read().await.map(view_icmp)
+    }
+}
+
 fn view_udp(d: downstream::UdpDatagram) -> UdpIn {
     UdpIn {
         source: d.meta.source,
@@ -114,27 +149,26 @@ impl IcmpDecoder {
     pub fn decode_chunk(&mut self, data: &[u8]) -> (Option<IcmpReq>, Vec<u8>) {
         match self.0.decode_chunk(Bytes::copy_from_slice(data)) {
             DecodeResult::WantMore => (None, Vec::new()),
-            DecodeResult::Complete(d, tail) => {
-                use crate::icmp_utils::{v4, v6, Message};
-                let (is_v4, echo) = match &d.message {
-                    Message::V4(v4::Message::Echo(e)) => (true, e),
-                    Message::V6(v6::Message::EchoRequest(e)) => (false, e),
-                    _ => panic!("verif: unexpected message kind from the ICMP decoder"),
-                };
-                (
-                    Some(IcmpReq {
-                        peer: d.meta.peer,
-                        is_v4_message: is_v4,
-                        identifier: echo.identifier,
-                        sequence_number: echo.sequence_number,
-                        ttl: d.ttl,
-                        data_len: echo.data.len(),
-                        code: echo.code,
-                    }),
-                    tail.to_vec(),
-                )
-            }
+            DecodeResult::Complete(d, tail) => (Some(view_icmp(d)), tail.to_vec()),
         }
+    }
+}
+
+fn view_icmp(d: downstream::IcmpDatagram) -> IcmpReq {
+    use crate::icmp_utils::{v4, v6, Message};
+    let (is_v4, echo) = match &d.message {
+        Message::V4(v4::Message::Echo(e)) => (true, e),
+        Message::V6(v6::Message::EchoRequest(e)) => (false, e),
+        _ => panic!("verif: unexpected message kind from the ICMP decoder"),
+    };
+    IcmpReq {
+        peer: d.meta.peer,
+        is_v4_message: is_v4,
+        identifier: echo.identifier,
+        sequence_number: echo.sequence_number,
+        ttl: d.ttl,
+        data_len: echo.data.len(),
+        code: echo.code,
     }
 }
 
